@@ -645,7 +645,10 @@ def _c16(prop, tier, seed):
 
 CUSTOM = {"C16": _c16}
 PROPS["C08"] = mpmc_prop("C08", 8, [(0, "sr", 0, 4), (1, "sr", 0, 4), (1, "tr", 0, 4), (0, "ca", 0, 4), (1, "ca", 0, 4), (1, "cl", 3, 5), (0, "cl", 3, 5), (2, "tr", 0, 4)],
-                        extra_quick=MPMC_WITNESSES[:1])
+                        extra_quick=MPMC_WITNESSES[:1] + [
+                            H(LIFE, "life_mpmc_discard_c08", "hold", replay=("life_mpmc_discard", 0), mask=P(8), est_s=40,
+                              bounds="shared mpmc (public API): capacity 2, 0-2 buffered values, optional receiver clone, optional explicit close, receiver "
+                                     "handles dropped in a symbolic order: buffered values survive while a receiver handle is alive")])
 PROPS["C09"] = mpmc_prop("C09", 9, [(0, "sr", 0, 4), (1, "sr", 0, 4), (1, "tr", 0, 4), (2, "tr", 0, 4), (0, "sr", 5, 5), (1, "sr", 3, 5), (2, "sr", 3, 5), (1, "ca", 0, 4),
                                     (1, "sr", 6, 5), (1, "tr", 6, 5), (2, "tr", 6, 6)],
                         extra_quick=MPMC_WITNESSES[:1])
